@@ -273,8 +273,10 @@ package callbacks
 //@   ensures driver-error-recorded: old(drvErrPending) == 0 ==> drvErrPending == 0 [C05]
 //@   loop "i := db.Statement.ReflectValue.Len() - 1; i >= 0; i--" entry-do idGoingDown = insertID
 //@   loop "i := db.Statement.ReflectValue.Len() - 1; i >= 0; i--" invariant one-step-down-per-key-given: insertID == idGoingDown
+//@   loop "i := db.Statement.ReflectValue.Len() - 1; i >= 0; i--" invariant no-unrecorded-driver-error: old(drvErrPending) == 0 ==> drvErrPending == 0 [C05]
 //@   loop "i := 0; i < db.Statement.ReflectValue.Len(); i++" entry-do idGoingUp = insertID
 //@   loop "i := 0; i < db.Statement.ReflectValue.Len(); i++" invariant one-step-up-per-key-given: insertID == idGoingUp
+//@   loop "i := 0; i < db.Statement.ReflectValue.Len(); i++" invariant no-unrecorded-driver-error: old(drvErrPending) == 0 ==> drvErrPending == 0 [C05]
 //@ site generated-key-is-the-running-id
 //@   match calldyn Field.Set
 //@   in callbacks.Create$1
